@@ -227,7 +227,9 @@ __CPROVER_ensures(SW_GO ==> (g_hclose_calls == OLD(g_hclose_calls) && g_start_ca
 #define WCB_HAS_AIO(f) ((f)->aio != NULL ? (size_t) 1 : (size_t) 0)
 #define WCB_HAS_BLK(f) ((f)->asize != 0 ? (size_t) 1 : (size_t) 0)
 /* the submitter's scatter/gather vector: at most 2 entries (message header + body: what ws_str_send builds), real buffers */
-#define WCB_IOV_PRE(A) ((A)->a_nio <= 2 && PT_ENT_PRE(A, 0) && PT_ENT_PRE(A, 1) && (A)->a_count <= (SIZE_MAX >> 4))
+#define WCB_IOVCAP 1024 /* every entry points into a buffer object of this (constant) size: object sizes stay concrete */
+#define WCB_ENT_PRE(A, i) ((i) >= (A)->a_nio || ((A)->a_iov[i].iov_len <= WCB_IOVCAP && __CPROVER_is_fresh((A)->a_iov[i].iov_buf, WCB_IOVCAP)))
+#define WCB_IOV_PRE(A) ((A)->a_nio <= 2 && WCB_ENT_PRE(A, 0) && WCB_ENT_PRE(A, 1) && (A)->a_count <= (SIZE_MAX >> 4))
 #define WCB_NEXT_TOTAL ((size_t) g_u64)
 #define WCB_NEXT_FRAG (WC->fragsize > 0 && WCB_NEXT_TOTAL > WC->fragsize)
 #define WCB_NEXT_LEN (WCB_NEXT_FRAG ? WC->fragsize : WCB_NEXT_TOTAL)
@@ -366,6 +368,69 @@ __CPROVER_ensures(OWF->len == WCB_NEXT_LEN && (unsigned) OWF->op == WS_OP_CONT &
 /* it goes to the END of txq (frames of other senders may interleave); the transmitter goes on with the first queued frame */
 __CPROVER_ensures(OLD(g_txq.n) == 0 ? (WSR_WRITING(WC, OWF) && g_txq.n == 0) : (WSR_WRITING(WC, OLD(g_txq.head)) && g_txq.n == 1 && g_txq.head == OWF))
 __CPROVER_ensures(g_wr_calls == OLD(g_wr_calls) + 1 && g_hclose_calls == OLD(g_hclose_calls) && !WC->closed == !OLD(WC->closed))
+#endif
+;
+
+/* ---- reassembly, stream mode (C01) -----------------------------------------
+ * rxq is a byte stream cut into frames; a waiting reader gets the next bytes
+ * of it, in order, into its scatter/gather vector: as many as are there and
+ * fit.  A frame leaves the queue (and is released) only when ALL its bytes
+ * were handed over; a partially read frame keeps exactly its unread tail.
+ * Units: WSR_N = 1, 2 queued frames (constant), short frames (payload inside
+ * the frame object, possibly partially read already), ONE waiting reader with
+ * a vector of at most 2 non-empty entries (buffers of RFS_CAP bytes). */
+#define RFS_CAP 200
+#define RFS_A (g_recvq.head)
+#define RFS_OA OLD(g_recvq.head)
+#define RFS_V(i) ((i) < RFS_A->a_nio ? RFS_A->a_iov[i].iov_len : (size_t) 0)
+#define RFS_ENT_PRE(i) ((i) >= RFS_A->a_nio || (RFS_A->a_iov[i].iov_len > 0 && RFS_A->a_iov[i].iov_len <= RFS_CAP && __CPROVER_is_fresh(RFS_A->a_iov[i].iov_buf, RFS_CAP)))
+/* a queued short frame, possibly partially read: the unread bytes are buf[0..len) inside sdata */
+#define RFS_ITEM_ON(i) (__CPROVER_is_fresh(IT(i), sizeof(ws_frame)) && IT(i)->len <= 125 && IT(i)->asize == 0 && IT(i)->adata == NULL && __CPROVER_pointer_in_range_dfcc(&IT(i)->sdata[0], IT(i)->buf, &IT(i)->sdata[0] + (125 - IT(i)->len)))
+/* concatenation index of (entry g_j, offset g_k) of the reader's vector */
+#define RFS_X (g_j == 0 ? g_k : g_s2 + g_k)
+#define RFS_EQ(i, p) ((g_rxq.n > (i) && RFS_X >= (p) && RFS_X - (p) < IT(i)->len) ==> g_b == IT(i)->buf[RFS_X - (p)])
+/* g_n = bytes queued, g_s2/g_s3 = room in entry 0/1, g_u64 = bytes handed over = min(queued, room) */
+#define RFS_C ((size_t) g_u64)
+static void ws_read_finish_str(nni_ws *ws)
+__CPROVER_requires(__CPROVER_is_fresh(ws, sizeof(*ws)) && WSR_LISTS_PRE(ws) && WSR_LOCKED(ws))
+__CPROVER_requires(g_recvq.n == 1 && __CPROVER_is_fresh(RFS_A, sizeof(nni_aio)) && VP_AIO_ON(RFS_A, &ws->recvq) && WSF_Q_OK(g_recvq))
+__CPROVER_requires(RFS_A->a_nio <= 2 && RFS_ENT_PRE(0) && RFS_ENT_PRE(1) && RFS_A->a_count <= (SIZE_MAX >> 4))
+__CPROVER_requires(g_rxq.n == WSR_N)
+#if WSR_N >= 1
+__CPROVER_requires(RFS_ITEM_ON(0))
+#else
+__CPROVER_requires(IT(0) == NULL)
+#endif
+#if WSR_N >= 2
+__CPROVER_requires(RFS_ITEM_ON(1))
+#else
+__CPROVER_requires(IT(1) == NULL)
+#endif
+__CPROVER_requires(IT(2) == NULL)
+__CPROVER_requires(g_s0 == RFM_L(0) && g_s1 == RFM_L(1) && g_n == g_s0 + g_s1 && g_s2 == RFS_V(0) && g_s3 == RFS_V(1) && g_u64 == (g_n < g_s2 + g_s3 ? g_n : g_s2 + g_s3))
+__CPROVER_requires(g_eq == WSR_EQ_MSG && g_j <= 1 && RFS_EQ(0, 0) && RFS_EQ(1, g_s0))
+__CPROVER_requires(g_f1.first_at == g_fin_calls)
+__CPROVER_assigns(g_rxq, g_recvq, WSF_FIN_GHOSTS, g_f1.first_aio, g_f1.first_rv, g_f1.first_count, g_free_calls, __CPROVER_object_whole(g_recvq.head);
+	RFS_A->a_nio > 0: __CPROVER_object_whole(RFS_A->a_iov[0].iov_buf); RFS_A->a_nio > 1: __CPROVER_object_whole(RFS_A->a_iov[1].iov_buf);
+	g_rxq.n > 0: g_rxq.item[0]->len, g_rxq.item[0]->buf; g_rxq.n > 1: g_rxq.item[1]->len, g_rxq.item[1]->buf)
+__CPROVER_frees(g_rxq.item[0], g_rxq.item[1])
+__CPROVER_ensures(WSR_STILL_LOCKED && g_alloc_ok == OLD(g_alloc_ok))
+/* nothing to read (only empty frames, which are dropped): the reader keeps waiting */
+__CPROVER_ensures(g_n == 0 ==> (g_fin_calls == OLD(g_fin_calls) && g_recvq.n == 1 && g_recvq.head == RFS_OA && g_rxq.n == 0 && g_free_calls == OLD(g_free_calls) + WSR_N && RFS_OA->a_count == OLD(g_recvq.head->a_count)))
+/* otherwise the reader leaves the wait queue and is completed exactly once, successfully, count = bytes handed over = min(queued, room) */
+__CPROVER_ensures(g_n > 0 ==> (g_fin_calls == OLD(g_fin_calls) + 1 && g_fin_last == RFS_OA && g_fin_last_rv == 0 && g_fin_last_count == OLD(g_recvq.head->a_count) + RFS_C && RFS_OA->a_count == g_fin_last_count && g_recvq.n == 0 && RFS_OA->a_prov_node.ln_next == NULL))
+/* the bytes are the next bytes of the stream, in order (entry g_j, offset g_k of the vector holds stream byte RFS_X) */
+__CPROVER_ensures((g_n > 0 && RFS_X < RFS_C && g_k < (g_j == 0 ? g_s2 : g_s3)) ==> ((const uint8_t *) (g_j == 0 ? OLD(g_recvq.head->a_iov[0].iov_buf) : OLD(g_recvq.head->a_iov[1].iov_buf)))[g_k] == g_b)
+/* first frame only partly read: it stays first, with exactly its unread tail; nothing is released */
+__CPROVER_ensures((g_n > 0 && RFS_C < g_s0) ==> (g_rxq.n == WSR_N && g_rxq.item[0] == OLD(g_rxq.item[0]) && g_rxq.item[0]->len == g_s0 - RFS_C && g_rxq.item[0]->buf == OLD(g_rxq.item[0]->buf) + RFS_C && g_free_calls == OLD(g_free_calls)))
+#if WSR_N >= 2
+__CPROVER_ensures((g_n > 0 && RFS_C < g_s0) ==> (g_rxq.item[1] == OLD(g_rxq.item[1]) && g_rxq.item[1]->len == g_s1 && g_rxq.item[1]->buf == OLD(g_rxq.item[1]->buf)))
+/* first frame read completely, second only partly: the first is released (once), the second is first now with exactly its unread tail */
+__CPROVER_ensures((g_n > 0 && RFS_C >= g_s0 && RFS_C < g_n) ==> (g_rxq.n == 1 && g_rxq.item[0] == OLD(g_rxq.item[1]) && g_rxq.item[0]->len == g_s1 - (RFS_C - g_s0) && g_rxq.item[0]->buf == OLD(g_rxq.item[1]->buf) + (RFS_C - g_s0) && g_free_calls == OLD(g_free_calls) + 1 && __CPROVER_was_freed(OLD(g_rxq.item[0]))))
+/* everything read: every frame is released once (an EMPTY last frame may stay queued when the vector filled up exactly; it carries no bytes) */
+__CPROVER_ensures((g_n > 0 && RFS_C == g_n) ==> ((g_rxq.n == 0 && g_free_calls == OLD(g_free_calls) + 2) || (g_s1 == 0 && g_rxq.n == 1 && g_rxq.item[0] == OLD(g_rxq.item[1]) && g_rxq.item[0]->len == 0 && g_free_calls == OLD(g_free_calls) + 1)))
+#else
+__CPROVER_ensures((g_n > 0 && RFS_C == g_n) ==> (g_rxq.n == 0 && g_free_calls == OLD(g_free_calls) + 1 && __CPROVER_was_freed(OLD(g_rxq.item[0]))))
 #endif
 ;
 /* clang-format on */
